@@ -116,7 +116,8 @@ Fixpoint all2 {A} (f : A -> A -> bool) (a b : list A) : bool :=
 
 Definition exc_eqb (a b : exc) : bool :=
   match a, b with
-  | ExImport, ExImport | ExAttr, ExAttr | ExType, ExType | ExValue, ExValue | ExKey, ExKey => true
+  | ExImport, ExImport | ExAttr, ExAttr | ExType, ExType | ExValue, ExValue | ExKey, ExKey
+  | ExAssert, ExAssert | ExYaml, ExYaml => true
   | ExUser n, ExUser m => N.eqb n m
   | _, _ => false
   end.
